@@ -143,3 +143,20 @@ def ob_c5(a: int) -> bool:
     assume(0 <= a < 65536)
     out = Community.parse(bytes([0, 100, a // 256, a % 256]))
     return out == ['100:%s' % a]
+
+def ob_psid(b0: int, b1: int, b2: int, b3: int) -> bool:
+    from yabgp.message.attribute.sr.bgpprefixsid import BGPPrefixSID
+    for x in (b0, b1, b2, b3):
+        assume(0 <= x < 256)
+    data = bytes([b0, b1, b2, b3])
+    try:
+        r = BGPPrefixSID.unpack(data)
+    except Exception as e:
+        import sys
+        sys.stderr.write('EXC %s\n' % type(e).__name__)
+        return True
+    import sys
+    from crosshair.tracers import NoTracing
+    with NoTracing():
+        sys.stderr.write('RET %r\n' % (type(r[0]['type']).__name__ if r else None,))
+    return True
